@@ -1,7 +1,6 @@
 from __future__ import annotations
 
 import ast
-import builtins
 import copy
 import inspect
 import logging
@@ -454,13 +453,10 @@ class _MethodTypeReturnInfo:
 T = TypeVar("T")
 
 
-def _is_method_of_builtin(obj_type: Any, method_name: str) -> bool:
-    "Is the method defined by one of Python's builtin classes (`str.split`, `int.bit_length`)?"
-    info = get_method_and_class(obj_type, method_name)
-    if info is None:
-        return False
-    defining_class = info[0]
-    return getattr(builtins, getattr(defining_class, "__name__", ""), None) is defining_class
+def _is_declared_class(c: Any) -> bool:
+    """A class made by a `class` statement, as opposed to one of the interpreter's own types (str,
+    int, module, NoneType, ...), whatever its `__module__` says."""
+    return inspect.isclass(c) and bool(c.__flags__ & (1 << 9))  # Py_TPFLAGS_HEAPTYPE
 
 
 def remap_by_types(
@@ -672,9 +668,17 @@ def remap_by_types(
             return_results: List[_MethodTypeReturnInfo] = []
             for base_obj in base_obj_list:
                 # Do basic static analysis without doing any call backs.
-                default_args_node, return_annotation_raw = _fill_in_default_arguments(
-                    base_obj.method, r_node
-                )
+                if inspect.isbuiltin(base_obj.method) or inspect.ismethoddescriptor(
+                    base_obj.method
+                ):
+                    # A method the interpreter implements (str.split, object.__str__): nothing
+                    # is declared for it. The call is emitted as written - not given the
+                    # builtin's own defaults.
+                    default_args_node, return_annotation_raw = r_node, Any
+                else:
+                    default_args_node, return_annotation_raw = _fill_in_default_arguments(
+                        base_obj.method, r_node
+                    )
                 return_annotation = resolve_type_vars(
                     return_annotation_raw, base_obj.obj_type, at_class=base_obj.method_class
                 )
@@ -840,11 +844,7 @@ def remap_by_types(
             elif isinstance(t_node.func, ast.Attribute):
                 # Do we know the type of the value?
                 found_type = self.lookup_type(t_node.func.value)
-                # Nothing is declared for the methods of builtin values (str, int, ...): such a
-                # call is emitted as written.
-                if found_type is not None and not _is_method_of_builtin(
-                    found_type, t_node.func.attr
-                ):
+                if found_type is not None:
                     t_node = self.process_method_call(t_node, found_type)
             elif isinstance(t_node.func, ast.Name):
                 if t_node.func.id in _global_functions:
@@ -858,8 +858,7 @@ def remap_by_types(
                     if (
                         found_type is not None
                         and found_type is not Any
-                        and inspect.isclass(found_type)
-                        and getattr(builtins, found_type.__name__, None) is not found_type
+                        and _is_declared_class(found_type)
                         and not (
                             is_dataclass(found_type)
                             and not hasattr(found_type, t_node.func.value.attr)
